@@ -74,7 +74,11 @@ def schema(h_attrs=(), h_derive=(), h_unique=(), h_where=(), hs_derive=(), hs_wh
           'TYPE hue = ENUMERATION OF (dark, light); END_TYPE;',
           'TYPE lbl = STRING; END_TYPE;',
           'TYPE lbl2 = %s; END_TYPE;' % d['typedef_base'],
-          'TYPE ilist = LIST [1:?] OF %s; END_TYPE;' % d['typedef_agg_elem']]
+          'TYPE ilist = LIST [1:?] OF %s; END_TYPE;' % d['typedef_agg_elem'],
+          # defined types with domain rules (SELF = a value of the type), reached below as element types of anonymous aggregates
+          'TYPE posint = INTEGER;', 'WHERE', '  wp1 : SELF > 0;', 'END_TYPE;',
+          'TYPE posint2 = posint;', 'WHERE', '  wp2 : SELF > 1;', 'END_TYPE;',
+          'TYPE poslist = LIST [1:3] OF posint2;', 'WHERE', '  wp3 : SIZEOF(SELF) > 0;', 'END_TYPE;']
     for n, mem in MIXES:
         mem = list(mem)
         if n in d['select_member']:
@@ -87,7 +91,8 @@ def schema(h_attrs=(), h_derive=(), h_unique=(), h_where=(), hs_derive=(), hs_wh
           'ENTITY h;', '  n : INTEGER;', '  s : STRING;', '  l : LIST [1:?] OF INTEGER;',
           '  q : %s;' % d['attr_type'], '  oq : OPTIONAL %s;' % d['attr_opt_type'], '  cq : c;',
           '  la : LIST [1:?] OF %s;' % d['attr_agg_elem'],
-          '  lla : LIST [1:?] OF SET [0:?] OF %s;' % d['attr_agg2_elem']]
+          '  lla : LIST [1:?] OF SET [0:?] OF %s;' % d['attr_agg2_elem'],
+          '  pn : posint2;', '  pl : LIST [0:?] OF posint2;', '  pll : SET [0:?] OF poslist;']
     for n, _ in MIXES:
         o.append('  p_%s : s_%s;' % (n, n))
     o += ['  ' + x for x in h_attrs]
@@ -102,9 +107,10 @@ def schema(h_attrs=(), h_derive=(), h_unique=(), h_where=(), hs_derive=(), hs_wh
     o += ['END_ENTITY;',
           'ENTITY hu;', '  hr : h;', 'END_ENTITY;',
           'FUNCTION f_one(i : %s) : %s;' % (d['param_type'], d['return_type']),
-          'LOCAL', '  w : %s;' % d['local_type'], '  wl : LIST [0:?] OF %s;' % d['local_agg_elem'], 'END_LOCAL;',
+          'LOCAL', '  w : %s;' % d['local_type'], '  wl : LIST [0:?] OF %s;' % d['local_agg_elem'], '  wp : LIST [0:?] OF posint2;', 'END_LOCAL;',
           '  RETURN (i);', 'END_FUNCTION;',
           'FUNCTION f_gen(g : AGGREGATE OF %s) : INTEGER;' % d['aggregate_of'], '  RETURN (SIZEOF(g));', 'END_FUNCTION;',
+          'FUNCTION f_pos(g : LIST [1:?] OF posint2; k : poslist) : LIST [1:?] OF posint;', '  RETURN (g);', 'END_FUNCTION;',
           'PROCEDURE p_set(i : %s; VAR o : %s);' % (d['proc_param_type'], d['proc_var_param_type']),
           'LOCAL', '  w : %s;' % d['proc_local_type'], 'END_LOCAL;',
           '  o := i;', 'END_PROCEDURE;',
